@@ -1,4 +1,5 @@
 import Anysystem.Proofs.SimQueueThms
+import Anysystem.Proofs.SimRunThms
 /-!
 # C08 — A crash isolates a node and recovery starts clean (simulation)
 
@@ -13,5 +14,12 @@ namespace Anysystem
 #check @Sim.recoverNode_fresh
 #check @Sim.addProcess_fresh
 #check @Sim.nextEvent_some
+
+/- whole runs: while a node has no handler (from crash_node until recover_node) no step records a handler invocation on it
+   and its processes do not change; send_local_message to it is refused -/
+#check @Sim.crashNode_no_handler
+#check @Sim.step_crashed_silent
+#check @Sim.steps_crashed_silent
+#check @Sim.sendLocal_crashed_refused
 
 end Anysystem
